@@ -56,10 +56,25 @@ RowScoreSat(meas, op, t, r) ==
     [] r[3] = 3 -> CmpInt(op, r[4] * t[2], t[1] * r[5])
     [] r[3] = 4 -> CmpInt(op, r[4] * t[2], t[1])
     [] OTHER -> FALSE
+(* a row without a reported score (out_sim_score = False): the admissible 4-decimal scores follow from the counts *)
+RowStraddle(meas, op, t, r) ==
+  IF meas \notin RoundedMeasures THEN FALSE
+  ELSE LET o == r[6]  n == r[7]  m == r[8]
+           S == CASE meas = "JACCARD" -> R4SetDiv(o, n + m - o)
+                  [] meas = "DICE"    -> R4SetDiv(2 * o, n + m)
+                  [] meas = "COSINE"  -> CosR4Set(o, n, m)
+           raw == RowRawSat(meas, op, t, r)
+           all == \A sc \in S : CmpInt(op, sc * t[2], t[1] * 10000)
+           some == \E sc \in S : CmpInt(op, sc * t[2], t[1] * 10000)
+       IN  (raw \/ some) /\ ~(raw /\ all)
+(* satisfied according to the reported score, or to the exact similarity when no score is reported *)
+RowSat(meas, op, t, r) == IF r[3] = 0 THEN RowRawSat(meas, op, t, r) ELSE RowScoreSat(meas, op, t, r)
 (* out of scope for threshold-dependent laws *)
 Excluded(meas, op, t, r) ==
   \/ IsMissingRow(r) \/ IsEmptyRow(r)
-  \/ (meas # "EDIT_DISTANCE" /\ r[7] > 0 /\ r[8] > 0 /\ RowRawSat(meas, op, t, r) # RowScoreSat(meas, op, t, r))
+  \/ (meas # "EDIT_DISTANCE" /\ r[7] > 0 /\ r[8] > 0 /\
+        (IF r[3] = 0 THEN RowStraddle(meas, op, t, r)
+         ELSE RowRawSat(meas, op, t, r) # RowScoreSat(meas, op, t, r)))
   \/ (meas = "COSINE" /\ BigCmp(CosLhs(r[6], t), CosRhs(r[7], r[8], t)) = 0)
 
 Core(r) == <<r[1], r[2], r[3], r[4], r[5]>>
@@ -78,7 +93,7 @@ Judge(T) ==
     [] T.law = "REFINE" ->
          LET t2 == <<T.t2[1], T.t2[2]>>
              InScope(r) == ~Excluded(T.meas, T.op, t, r) /\ ~Excluded(T.meas, T.op, t2, r)
-             sa == Filter(A, LAMBDA r : InScope(r) /\ RowScoreSat(T.meas, T.op, t2, r))
+             sa == Filter(A, LAMBDA r : InScope(r) /\ RowSat(T.meas, T.op, t2, r))
              sb == Filter(B, InScope)
              fa == [k \in DOMAIN sa |-> Core(sa[k])]
              fb == [k \in DOMAIN sb |-> Core(sb[k])]
